@@ -68,6 +68,67 @@ def probe_pixels(r, pft, n):
     return out[:n]
 
 
+def cli_options_leg(ctx):
+    """the options as the user gives them: the real `vncdo` command line -> SetEncodings after ServerInit"""
+    import itertools
+    from appgen import Vncdo
+    from appsession import Workdir
+    with Workdir():
+        for nocursor, localcursor, noresize in itertools.product([False, True], repeat=3):
+            v = Vncdo(["key", "a"], nocursor=nocursor, localcursor=localcursor, no_desktop_resize=noresize)
+            try:
+                if v.factory is None:
+                    ctx.violate("announce", {"input": {"argv": "vncdo key a", "nocursor": nocursor, "localcursor": localcursor}, "observed": "vncdo did not try to connect: %r" % (v.error,)})
+                    continue
+                v.connect()
+                toks_ = v.feed(b"RFB 003.008\n" + bytes([1, 1]) + struct.pack("!I", 0) + server_init(4, 4, vclient.RGB32, b"x"))
+                ws = [t[2:] for t in toks_ if t.startswith("w:")]
+                i = next((k for k, w_ in enumerate(ws) if w_.startswith("02")), None)
+                got = None
+                if i is not None:
+                    cnt = struct.unpack("!H", bytes.fromhex(ws[i])[2:4])[0]
+                    got = [struct.unpack("!i", bytes.fromhex(x))[0] for x in ws[i + 1:i + 1 + cnt]]
+                want = [0] + ([-239] if (nocursor or localcursor) else []) + ([] if noresize else [-223]) + [-224, -258]
+                ctx.count("cli_option_combinations")
+                ctx.case(None, key=("cli", nocursor, localcursor, noresize))
+                if got != want:
+                    ctx.violate("announce-cli-options", {"input": {"command_line": "vncdo" + (" --nocursor" if nocursor else "") + (" --localcursor" if localcursor else "") + (" --disable-desktop-resizing" if noresize else "") + " key a"},
+                                                         "observed": "SetEncodings %r, the options say %r" % (got, want),
+                                                         "how": "the real vncdo() entry point (option parser, build_tool) with an in-memory transport: SetEncodings sent after ServerInit"})
+            finally:
+                v.close()
+
+
+def logging_client_leg(ctx):
+    """vnclog's own decoder (a VNCDoToolClient on the server side of the proxy) follows the format the VIEWER selects:
+    it renders in that format if it can, and stops rendering (image mode None) if it cannot - never in a stale format"""
+    from proxygen import Proxy
+    r = ctx.rng
+    for si in range(ctx.n(40, 400)):
+        p = Proxy(False, 5000)
+        p.viewer_sends(b"RFB 003.008\n\x01\x01")
+        native = r.choice(ACCEPTED_PF)
+        p.server_sends(server_init(4, 4, native, b"n"))
+        seq = []
+        for _ in range(r.randint(1, 3)):
+            pf = r.choice(ACCEPTED_PF + ODD_PF)
+            seq.append(pf)
+            _, _, exc = p.viewer_sends(struct.pack("!Bxxx", 0) + pf.to_bytes())
+            if exc:
+                break
+        vl = p.cl.vnclog
+        if vl is None:
+            ctx.count("logging_client_gone")
+            continue
+        want = vclient.PF2IM.get(seq[-1])
+        ctx.count("logging_client_formats")
+        ctx.case(None, key=("vnclog", si))
+        if vl.image_mode != want:
+            ctx.violate("logging-client-format", {"input": {"native": vclient.PF2IM.get(native), "viewer_selects": [vclient.PF2IM.get(x, repr(x)) for x in seq]},
+                                                  "observed": "vnclog's decoder has image mode %r; the format in force maps to %r" % (vl.image_mode, want),
+                                                  "how": "in-memory logging proxy pair; SetPixelFormat messages from the viewer"})
+
+
 def run(ctx):
     r = ctx.rng
     n = ctx.n(500, 8000)
@@ -130,6 +191,8 @@ def run(ctx):
         ml = model_lines(kind, dict(opts, encoding=pref), zlog, chunks) + ["rfb-screen"]
         meta.append((len(lines), len(zlog), len(chunks), flat, stok, rp))
         lines += ml
+    cli_options_leg(ctx)
+    logging_client_leg(ctx)
     mout = ctx.drive(lines)
     if mout is not None:
         for off, nz, nch, flat, stok, rp in meta:
